@@ -130,7 +130,7 @@ CHECKS = {
                      "sub-frame product frame*divisions+offset stays inside int64"],
     ),
     "C07": dict(
-        rule_more="(A) also with a periodic flush interval of 0.1-2 ms, so that periodic flushes fall between and into the operations; (B) a few cases per shard write LJH3 records as long as the writer's own buffer (32768/40000 samples) mixed with short ones. (B) OFF records of 1000-2000 samples (large header matrices) in one case of twenty.",
+        rule_more="(A) also with a periodic flush interval of 0.1-2 ms, so that periodic flushes fall between and into the operations; (B) a few cases per shard write LJH3 records as long as the writer's own buffer (32768/40000 samples) mixed with short ones. (B) OFF records of 1000-2000 samples (large header matrices) in one case of twenty. (A) with the disk alive, a full queue must empty by itself: after depth+2 writes one more 64-byte write must be accepted within 5 s without any flush.",
         pkg=".", hdir="root", test="TestVerif_C07[ABC]", ids=["C07A", "C07B", "C07C"],
         quick=dict(shards=16, checks=3000, timeout=600),
         thorough=dict(shards=16, checks=75000, timeout=5400),
@@ -233,7 +233,7 @@ CHECKS = {
         assumptions=["no ConfigurePulseLengths or edge-multi inside these histories (covered by C01/C08)"],
     ),
     "C06": dict(
-        rule_more='An earlier run directory of the day may be deleted by hand between sessions (directory numbers with a hole): the next START must still write into a directory that did not exist. Some sessions publish 400-700 records per channel and block, block after block (the writers\' queues hold 1000 entries and must be emptied as they fill).',
+        rule_more='An earlier run directory of the day may be deleted by hand between sessions (directory numbers with a hole): the next START must still write into a directory that did not exist.',
         pkg=".", hdir="root", test="TestVerif_C06", wal=True,
         quick=dict(shards=16, checks=3000, timeout=600),
         thorough=dict(shards=16, checks=36000, timeout=5400),
